@@ -430,6 +430,14 @@ theorem num_mod_over_ieee (a b : Nat) (ha : FinBits a) (hb : FinBits b) (hz : is
   ⟨fun h1 h2 h3 => (ieee_num_mod a b ha hb hz h1 h2 h3).2, fun r1 r2 r3 => ieee_num_mod_exact a b ha hb hz r1 r2 r3⟩
 
 open JanetModel.Int64.Ieee in
+/-- ★ `(% a b)` on two finite doubles, b ≠ 0, is C `fmod`: **exactly** a − b·trunc(a / b) (a double; nothing is rounded) -/
+theorem num_rem_is_exact_fmod (a b : Nat) (nx ny : Bool) (mx my : Nat) (ex ey : ℤ)
+    (ha : decode a = .fin nx mx ex) (hb : decode b = .fin ny my ey) (hmy : my ≠ 0) :
+    numRemainder ieee a b = ieee.fmod a b ∧ FinBits (numRemainder ieee a b) ∧
+    valQ (numRemainder ieee a b) = valQ a - valQ b * ((truncQ (valQ a / valQ b) : ℤ) : ℚ) :=
+  ⟨rfl, fmod_exact a b nx ny mx my ex ey ha hb hmy⟩
+
+open JanetModel.Int64.Ieee in
 /-- non-vacuity: `(mod 7 2)` — all hypotheses of the exact case hold, the result is 1 -/
 example : valQ (numModulo ieee 0x401c000000000000 0x4000000000000000) = 1 := by
   have d7 : decode 0x401c000000000000 = .fin false 7881299347898368 (-50) := by decide
